@@ -10,14 +10,16 @@ def parse(r):
         if not part: continue
         a,_,b=part.partition("-"); out.update(range(int(a),int(b or a)+1))
     return out
-missed={}; execd={}
+missed={}; execd={}; anchored=set()
 for f in sorted(glob.glob(str(V/"evidence/*.json"))):
     c=json.load(open(f))["coverage"].get("anchored_lines")
     if not c: continue
-    for fn,v in c["files"].items():
+    for fn,v in list(c["files"].items())+list(c.get("other_files",{}).items()):
         m=parse(v["missed"])
         missed[fn]=missed[fn]&m if fn in missed else m
         execd[fn]=v["executable"]
+        if fn in c["files"]: anchored.add(fn)
+missed={f:m for f,m in missed.items() if f in anchored}; execd={f:n for f,n in execd.items() if f in anchored}
 tot=sum(execd.values()); mis=sum(len(m) for m in missed.values())
 print("anchored files: %d, executable lines: %d, executed by at least one check: %d (%.1f%%)"%(len(execd),tot,tot-mis,100.0*(tot-mis)/max(tot,1)))
 for fn in sorted(missed, key=lambda f:-len(missed[f])):
